@@ -2,7 +2,9 @@
 (* Trace validation for Equilibria (C07): evaluations of the real residual formulations on    *)
 (* seeded systems and states beyond the exhaustive bounds (up to four reactions, finer        *)
 (* grids) are replayed through the actions of Equilibria; TLC defines K, computes the         *)
-(* expected judgement and compares it with what was observed.  Batch protocol as in           *)
+(* expected judgement and compares it with what was observed.  A trace may contain several   *)
+(* result events separated by "again": evaluations of ONE residual object with different      *)
+(* parameters (history).  Batch protocol as in                                                *)
 (* FormulaTrace.                                                                              *)
 EXTENDS Equilibria, IOUtils
 
@@ -26,6 +28,7 @@ Step(e) ==
                               [] e.kind = "scale"  -> ScaleSpecies(e.i, e.a)
                               [] e.kind = "shift0" -> BreakConservation(e.i, e.a)
                               [] OTHER             -> FALSE
+      [] e.ev = "again"  -> Again
       [] OTHER           -> FALSE
 
 \* the observation: number of equations, zero-ness class of the 50 digit residual, and the
@@ -39,8 +42,9 @@ ResultOK(e) == ObsLen(e) /\ ObsZero(e) /\ ObsQ(e) /\ ObsTot(e)
 TStep ==
     /\ verdict = "none" /\ pos <= Len(Traces[tid])
     /\ IF Ev.ev = "result"
-       THEN Residual(Ev.ns, Ev.re, Ev.rp) /\ ResultOK(Ev) /\ verdict' = "accept"
-       ELSE Step(Ev) /\ verdict' = "none"
+       THEN Residual(Ev.ns, Ev.re, Ev.rp) /\ ResultOK(Ev)
+       ELSE Step(Ev)
+    /\ verdict' = IF pos = Len(Traces[tid]) /\ Ev.ev = "result" THEN "accept" ELSE "none"
     /\ pos' = pos + 1 /\ UNCHANGED tid
 
 TReject ==
